@@ -13,7 +13,7 @@ fn gen(r: &mut Rng, _cfg: &RunCfg) -> Case {
         0 => gen_text(r, TextDomain::Any),
         1 => {
             // space-run heavy
-            let m = Mix::swarm(r, &[Class::Ascii, Class::Wide, Class::Space, Class::Para]);
+            let m = Mix::swarm(r, &[Class::Ascii, Class::Wide, Class::Space, Class::Para, Class::Scalars]);
             let n = r.range(1, 16);
             let mut s = String::new();
             for _ in 0..n {
@@ -82,6 +82,13 @@ pub fn check(case: &Case, obs: &mut Obs) -> Verdict {
 }
 
 fn extra(cfg: &RunCfg, w: &mut Worker) {
+    corpus_subrun(cfg, w, |i, paras, width, v| {
+        if v >= 2 {
+            return None;
+        }
+        let text = if v == 1 && i + 1 < paras.len() { format!("{}\n\n{}", paras[i], paras[i + 1]) } else { paras[i].clone() };
+        Some(Case::new("inplace").text(text).num(width))
+    });
     let max = if cfg.thorough { 7 } else { 5 };
     let alphabet: &[&str] = &["a", " ", "你", "\n", "bb"];
     let threads = cfg.threads.max(1);
